@@ -129,7 +129,8 @@ def make_adapter(case):
 def payload_of(case, vals, dshape):
     arr = np.array(vals, dtype=float).reshape(dshape)
     if case["payload"] == "masked":
-        return np.ma.masked_array(arr, np.array(MASKS[case["shape"]]).reshape(dshape))
+        # (with a fill value of its own: what `filled()` puts into the masked cells is part of the delivered data)
+        return np.ma.masked_array(arr, np.array(MASKS[case["shape"]]).reshape(dshape), fill_value=-9999.0)
     if case["payload"] == "maskedgap":
         # the metadata declare a fixed mask (say land cells); every publication masks one more cell of its own
         # (a data gap that moves from publication to publication)
@@ -155,7 +156,10 @@ def canon_value(v):
     n = data.shape[0]
     rows = [[float(x) for x in data[i].reshape(-1)] for i in range(n)]
     mask = [bool(x) for x in np.ma.getmaskarray(mag).reshape(-1)]
-    return {"ok": rows, "mask": mask, "units": str(v.units), "masked_type": bool(np.ma.isMaskedArray(mag))}
+    out = {"ok": rows, "mask": mask, "units": str(v.units), "masked_type": bool(np.ma.isMaskedArray(mag))}
+    if np.ma.isMaskedArray(mag) and any(mask):
+        out["fill_value"] = float(mag.fill_value)
+    return out
 
 
 def run_impl(case, location, limit="case"):
